@@ -603,6 +603,18 @@ func (e *env) quiescentMonitors() {
 	}
 	if e.cons == "close" && !gated {
 		e.viol("close-stuck", "Close has not returned at quiescence although no call of f or of the source is pending", nil)
+		e.c09OwnerCloseStuck("the owner's Close has been called and has not returned at quiescence, no call of f or of the source is pending")
+	}
+}
+
+// c09OwnerCloseStuck (mu held; called where `close-stuck` is judged, never elsewhere): C09 for an owner that was
+// abandoned — "closes each stream it was given exactly once … whether iteration ended normally, ended with an
+// error, or was abandoned early". The owner's Close has been called, nothing is pending any more and the
+// source's Close has not even been called: nothing is left that would close it.
+func (e *env) c09OwnerCloseStuck(when string) {
+	if e.srcCloseBegun == 0 {
+		e.viol("c09-close-count", when+", and the source's Close has not been called (begun 0, returned 0): the source is never closed",
+			map[string]interface{}{"source_close_begun": 0, "source_close_returned": 0, "owner_close": "stuck"})
 	}
 }
 
@@ -1336,6 +1348,7 @@ func (e *env) runTimed(sc *Scenario, cmds chan cmd, out *Outcome, st stream.Stre
 		case <-hour.C:
 			e.mu.Lock()
 			e.viol("close-stuck", "Close did not return within an hour of virtual time", nil)
+			e.c09OwnerCloseStuck("the owner's Close was called and has not returned within an hour of virtual time (every latency is a few milliseconds)")
 			e.mu.Unlock()
 			e.fatal(sc, out, "Close blocked for good in a timed scenario")
 			return
@@ -1416,6 +1429,44 @@ func directedDead() []Scenario {
 		sc = base
 		sc.N = 0
 		out = append(out, sc)
+	}
+	return out
+}
+
+// directedFull: the work buffer completely full, then the owner is abandoned. With E = max(parallelism,
+// bufferSize): E items have been handed to f and their results wait unread (one call of f may still be running),
+// the source has delivered one more item, which the reader holds while it waits for a free slot; everything is
+// quiescent. Then Close (at once / after reading 1 result and refilling / with a Next that expired first), or a
+// call of f fails and the consumer calls Next. Clauses: the usual ones (close-stuck, c09-close-count, deadlock, ...).
+func directedFull() []Scenario {
+	var out []Scenario
+	for _, pb := range [][2]int{{1, 0}, {1, 2}, {2, 0}, {2, 3}, {3, 5}, {4, 1}} {
+		p, b := pb[0], pb[1]
+		e := p
+		if b > e {
+			e = b
+		}
+		fill := func(upto int, lastRunning bool) []Step {
+			var st []Step
+			for i := 0; i < upto; i++ {
+				st = append(st, Step{Op: "item", V: 1000 + i})
+				if !(lastRunning && i == upto-1) {
+					st = append(st, Step{Op: "fok", I: i, V: 100 + i})
+				}
+			}
+			return append(st, Step{Op: "item", V: 1000 + upto})
+		}
+		for _, slow := range []bool{false, true} {
+			mk := func(steps []Step) {
+				out = append(out, Scenario{Kind: "script", Variant: "stream", P: p, B: b, SlowClose: slow, Steps: steps})
+			}
+			mk(append(fill(e, false), Step{Op: "close"}))
+			mk(append(fill(e, true), Step{Op: "close"}))
+			mk(append(fill(e, false), Step{Op: "next"}, Step{Op: "fok", I: e, V: 100 + e}, Step{Op: "item", V: 1001 + e}, Step{Op: "close"}))
+			mk(append(fill(e, false), Step{Op: "sleep", V: 61}, Step{Op: "close"}))
+			mk(append(fill(e, true), Step{Op: "ferr", I: e - 1, V: e}, Step{Op: "next"}))
+			mk(append(fill(e, true), Step{Op: "next"}, Step{Op: "ferr", I: e - 1, V: e}))
+		}
 	}
 	return out
 }
@@ -1803,6 +1854,16 @@ func TestVerif(t *testing.T) {
 		res.Count("corpus")
 		o := check(t, &sc, nil, ms, res, env)
 		res.Case(sc.key(), nontrivial(&sc, o), nil)
+	}
+	// directed pass (deterministic, every run): the work buffer completely full, then Close / a failing f
+	full := directedFull()
+	for i := range full {
+		if nFatal >= maxFatal {
+			break
+		}
+		res.Count("directed-buffer-full")
+		o := check(t, &full[i], nil, ms, res, env)
+		res.Case(full[i].key(), nontrivial(&full[i], o), nil)
 	}
 	// sweep: every error position in the source and in f, Close after 0..len results, for small
 	// parallelism / bufferSize combinations and two latency patterns (timed scenarios, 4 items)
